@@ -47,9 +47,40 @@ def flatten_in_place_spec(rnd):
     return None
 
 
+def affine_contracted_spec(rnd):
+    """An index expression over two (or three) CONTRACTED variables that are first seen inside
+    it, with a coefficient on any of them: `Z[m] = A[2 * k + j, m] * B[j] * C[k]`.  The default
+    loop order lists them as written (K before J), whatever their coefficients."""
+    from ..spec import Acc, Term, Einsum, Spec
+    pool = rnd.choice([["M", "K", "J", "N"], ["P", "S", "R", "T"], ["X", "J", "K", "H"]])
+    o, v1, v2, v3 = pool
+    three = rnd.random() < 0.3
+    vs = [v1, v2] + ([v3] if three else [])
+    rnd.shuffle(vs)
+    coefs = [rnd.choice([1, 2, 2, 3, 4]) for _ in vs]
+    if all(c == 1 for c in coefs):
+        coefs[0] = 2
+    aff = [(c, v.lower()) for c, v in zip(coefs, vs)]
+    a_idx = [aff, [(1, o.lower())]]
+    a_decl = ["W", o]
+    if rnd.random() < 0.5:
+        a_idx.reverse()
+        a_decl.reverse()
+    facs = [Acc("A", a_idx)] + [Acc(n, [[(1, v.lower())]]) for n, v in zip("BCD", sorted(vs))]
+    if rnd.random() < 0.35:
+        rnd.shuffle(facs)
+    decl = {"Z": [o], "A": a_decl}
+    for n, v in zip("BCD", sorted(vs)):
+        decl[n] = [v]
+    e = Einsum(Acc("Z", [[(1, o.lower())]]), [Term("times", facs)])
+    return Spec(decl, [e], tags=["affine-contracted"])
+
+
 def base_spec(rnd, i):
     if i % 13 == 12:
         return flatten_in_place_spec(rnd), "flatten-in-place"
+    if i % 13 == 11:
+        return affine_contracted_spec(rnd), "affine-contracted"
     k = i % 6
     if k in (0, 1):
         s, info = GE.gen_plain(rnd)
@@ -194,7 +225,7 @@ def finalize(results, counters, tier, seed):
     mon = counters.get("monitor", {})
     if mon.get("pairs-compared", 0) < N[tier] // 4:
         inc.append("too few pairs compared: %r" % mon)
-    miss = [s for s in ("plain", "shape", "occupancy", "cascade", "affine", "flatten-in-place",
+    miss = [s for s in ("plain", "shape", "occupancy", "cascade", "affine", "affine-contracted", "flatten-in-place",
                         "default-partitioning-entries-written",
                         "omit-loop-order",
                         "omit-rank-order", "omit-both", "omit-all")
